@@ -131,6 +131,7 @@ type FnCtx struct {
 	edges       map[[2]int]*Term
 	litText     map[*Term]string
 	oblNames    map[string]int
+	finalVals   map[string]envVar
 }
 
 type deferRec struct {
@@ -621,6 +622,26 @@ func (fc *FnCtx) finish() {
 	fc.exitVals = vals
 	if fc.con == nil || fc.pureMode {
 		return
+	}
+	// final values of named non-escaping locals (zero where not yet declared)
+	fc.finalVals = map[string]envVar{}
+	for name, allocs := range fc.cellNames {
+		if len(allocs) != 1 || allocs[0].Heap {
+			continue
+		}
+		a := allocs[0]
+		et := a.Type().(*types.Pointer).Elem()
+		val := func(s *State) *Term {
+			if v, ok := s.cells[a]; ok {
+				return v
+			}
+			return fc.so.Zero(et)
+		}
+		v := val(fc.retStates[len(fc.retStates)-1])
+		for i := len(fc.retStates) - 2; i >= 0; i-- {
+			v = tb.Ite(fc.retStates[i].reach, val(fc.retStates[i]), v)
+		}
+		fc.finalVals[name] = envVar{v, et}
 	}
 	env := fc.exitEnv(exit, vals)
 	for j, c := range fc.con.Ensures {
